@@ -124,11 +124,14 @@ pub fn gen_doc(r: &mut Rng) -> Doc {
     let mut top: Vec<Top> = vec![Top::Info, Top::Other(b"announce".to_vec(), BV::s("http://tracker.invalid/a"))];
     let mut shape = vec![];
     for _ in 0..r.below(4) {
-        let mut k = match r.below(5) {
+        let mut k = match r.below(8) {
             0 => b"a".to_vec(),
             1 => b"zz".to_vec(),
             2 => b"comment".to_vec(),
             3 => b"infoo".to_vec(),
+            // look-alikes of the key: other letter case, a prefix, surrounding blanks
+            4 => { shape.push("look-alike-key"); r.pick(&[&b"INFO"[..], b"Info", b"iNFO", b"infO", b"InFo"]).to_vec() }
+            5 => { shape.push("look-alike-key"); r.pick(&[&b"inf"[..], b"info ", b" info", b"info\0", b"4:info", b"nfo"]).to_vec() }
             _ => g.string(r),
         };
         if k == b"info" || k == b"announce" {
